@@ -432,6 +432,11 @@ func checkCut(cmds []wcmd, k int, dr *donorRun, st *cutStats) []Failure {
 				out = append(out, Failure{Cut: k, Stage: "suffix-result", Signature: known(mOrphanSecret),
 					Detail: fmt.Sprintf("command %d (%s) after the cut: accepted by the donor, refused by the restored server", i, cmds[i].Desc),
 					Extra:  map[string]string{"donor": clip(dr.results[i]), "restored": clip(res)}})
+			} else if w.has(mUnheldUUID) && strings.Contains(res, "peering secret is already in use") && !strings.HasPrefix(dr.results[i], "error:") && usesSecret(data, w.unlisted) {
+				// the restore recorded an id the donor's list lacks (held by a row a re-created peering adopted)
+				out = append(out, Failure{Cut: k, Stage: "suffix-result", Signature: known(mUnheldUUID),
+					Detail: fmt.Sprintf("command %d (%s) after the cut: accepted by the donor, refused by the restored server", i, cmds[i].Desc),
+					Extra:  map[string]string{"donor": clip(dr.results[i]), "restored": clip(res)}})
 			} else if w.has(mUnheldUUID) && strings.Contains(dr.results[i], "peering secret is already in use") && !strings.HasPrefix(res, "error:") && usesSecret(data, w.unheldIDs) {
 				// the donor still lists an id that none of its secrets rows holds; the restored server forgot it
 				out = append(out, Failure{Cut: k, Stage: "suffix-result", Signature: known(mUnheldUUID),
